@@ -493,9 +493,10 @@ def gen_table_entries(rng, dur, flavour=None):
             interp = 'h' if i < len(segs) - 1 else rng.choice('lj')
         ent.append([fs(t), fs(nv), interp])
         if flavour == 'dup' and rng.random() < 0.5:
-            # zero-length segment (never linear: that is the malformed stream) or repeated value
-            ent.append([fs(t), fs(rng.choice([nv, rng.choice(VOLT)])), rng.choice('hj')])
-            nv = F(ent[-1][1])
+            # one to three zero-length segments (never linear: that is the malformed stream) or repeated values
+            for _ in range(rng.choice([1, 1, 2, 3])):
+                ent.append([fs(t), fs(rng.choice([nv, rng.choice(VOLT)])), rng.choice('hj')])
+                nv = F(ent[-1][1])
         v = nv
     return ent
 
@@ -1035,11 +1036,22 @@ def classify(case, obs):
             return 'C08-reversed-composite-junction' if has_kind(r, REV) else 'C08-nan-at-duration'
         if has_kind(r, ('trans',)) and _hist_inplace(case):
             return 'C08-trafo-cache-stale-after-inplace-times'
+    if k == 'sample' and 'built' in obs and F(obs['built']['dur']) in [F(t) for t in case['grid']] and _table_final_triple(r):
+        return 'C08-table-dedup-final-triple'
     if k in ('sample', 'hist') and _has_parallel_before_linear(r) and _has_keyerror(obs):
         return 'C08-chain-parallel-linear-keyerror'
     if k == 'eq' and obs.get('built') and obs.get('eq') and obs.get('hash_eq') is None and has_kind(r, ('functor', 'neg')):
         return 'C08-functor-unhashable'
     return None
+
+
+def _table_final_triple(r):
+    """a from_table table whose last three entries share one time"""
+    if not isinstance(r, list):
+        return False
+    if r and r[0] == 'table' and r[1] and len(r[3]) >= 3 and F(r[3][-1][0]) == F(r[3][-2][0]) == F(r[3][-3][0]):
+        return True
+    return any(_table_final_triple(x) for x in r if isinstance(x, list))
 
 
 def _has_parallel_before_linear(r):
